@@ -908,6 +908,232 @@ def ref_struct(p, max_steps=LONG):
 
 
 # ---------------------------------------------------------------------------------------------------------
+# FOR with a single-precision counter (model/FlowSingle.v)
+
+SINGLE_FUEL = 300        # passes of the body before "no end" is declared (model); statements = 2 per pass
+
+
+def mbf_bytes(x):
+    """Python float -> 4 MBF single bytes (x must be a float32 value within MBF range)"""
+    import struct
+    bits = struct.unpack('<I', struct.pack('<f', x))[0]
+    sign, e, man = bits >> 31, (bits >> 23) & 0xff, bits & 0x7fffff
+    if e == 0:
+        return [0, 0, 0, 0]
+    eb = e + 2
+    if eb > 255:
+        raise ValueError(x)
+    return [man & 0xff, (man >> 8) & 0xff, ((man >> 16) & 0x7f) | (sign << 7), eb]
+
+
+def mbf_value(b):
+    """4 MBF bytes -> exact Fraction"""
+    from fractions import Fraction
+    if b[3] == 0:
+        return Fraction(0)
+    man = b[0] + (b[1] << 8) + ((b[2] & 0x7f) << 16) + 0x800000
+    v = Fraction(man) * Fraction(2) ** (b[3] - 152)
+    return -v if b[2] & 0x80 else v
+
+
+def round24(x, ties_away=True):
+    """a rational rounded to 24 significant bits (nearest; ties away from zero or towards it)"""
+    from fractions import Fraction
+    if x == 0:
+        return x
+    neg, m = x < 0, abs(x)
+    e = 0
+    while m >= 2 ** 24:
+        m /= 2
+        e += 1
+    while m < 2 ** 23:
+        m *= 2
+        e -= 1
+    n = int(m + Fraction(1, 2))
+    if not ties_away and m + Fraction(1, 2) == n:
+        n -= 1
+    r = Fraction(n) * Fraction(2) ** e
+    return -r if neg else r
+
+
+def word16(lo, hi):
+    u = lo + 256 * hi
+    return u if u < 32768 else u - 65536
+
+
+def words(b):
+    return [word16(b[0], b[1]), word16(b[2], b[3])]
+
+
+def unwords(w0, w1):
+    u0, u1 = w0 % 65536, w1 % 65536
+    return [u0 & 0xff, u0 >> 8, u1 & 0xff, u1 >> 8]
+
+
+def cvs_text(b):
+    w = words(b)
+    return 'CVS(MKI$(%d)+MKI$(%d))' % (w[0], w[1])
+
+
+PROBE = 'PRINT CVI(LEFT$(MKS$(X),2));CVI(RIGHT$(MKS$(X),2))'
+
+
+def single_text(case):
+    lines = []
+    if case.get('susp'):
+        lines.append('5 ON ERROR GOTO 90')
+    lines.append('10 A=%s:B=%s:S=%s' % (cvs_text(case['a']), cvs_text(case['b']), cvs_text(case['s'])))
+    lines.append('20 FOR X=A TO B STEP S:%s:NEXT' % PROBE)
+    lines.append('30 %s:END' % PROBE)
+    lines.append('90 PRINT ERR:END')
+    return lines
+
+
+def run_single(case, seconds=30):
+    """-> [0]+words... (77777 = the Overflow message) | [1, err]+words | [2, k] | [3]"""
+    limit = 2 * SINGLE_FUEL + 8
+    with common.new_session() as s:
+        with core.time_limit(seconds):
+            for line in single_text(case):
+                s.execute(line)
+            impl = s._impl
+            parser = impl.interpreter.parser
+            count = [0]
+            orig = parser.parse_statement
+
+            def counting(ins):
+                count[0] += 1
+                if count[0] > limit:
+                    raise StepLimit()
+                return orig(ins)
+            parser.parse_statement = counting
+            out = io.BytesIO()
+            res = None
+            with impl.io_streams.activate():
+                s.add_pipes(output_streams=out)
+                try:
+                    impl.execute(b'RUN')
+                except StepLimit:
+                    res = [3]
+                except Exception as e:
+                    res = common.canon_exc(e)
+                finally:
+                    parser.parse_statement = orig
+                    s.remove_pipes(output_streams=out)
+        if res is not None:
+            return res
+    vals = []
+    err = None
+    for ln in out.getvalue().split(b'\r\n'):
+        t = ln.strip()
+        if not t:
+            continue
+        if t == b'Overflow':
+            vals.append(77777)
+            continue
+        parts = t.split()
+        try:
+            nums = [int(p) for p in parts]
+        except ValueError:
+            return [2, 98]
+        if len(nums) == 2:
+            vals += nums
+        elif len(nums) == 1:
+            err = nums[0]
+        else:
+            return [2, 98]
+    return ([1, err] if err is not None else [0]) + vals
+
+
+def single_model_term(case):
+    return 'enc_sfor (s_for %d%%nat %s %s %s %s)' % (
+        SINGLE_FUEL, 'true' if case.get('susp') else 'false', zlist(case['a']), zlist(case['b']), zlist(case['s']))
+
+
+SINGLE_MAX = [255, 255, 127, 255]
+SINGLE_MIN = [255, 255, 255, 255]
+
+
+def single_oracle(case, out):
+    """direct reading of the property on the observed counter values: the body runs once per value of the
+    ACCUMULATED counter (each value is the previous one plus the step, rounded to single precision) while it
+    has not passed the end in the direction of the step; zero times if the start is already past"""
+    from fractions import Fraction
+    a, b, st = mbf_value(case['a']), mbf_value(case['b']), mbf_value(case['s'])
+    up = st >= 0
+
+    def passed(c):
+        return c > b if up else c < b
+    if out[0] == 2:
+        return 'the interpreter raised a host exception (%s)' % out
+    if out[0] == 3:
+        # no end: legitimate only if the counter cannot reach the end in SINGLE_FUEL passes
+        # (the rounding of an exact tie is not part of the property: either way is accepted)
+        for ties in (True, False):
+            c = a
+            ended = False
+            for _ in range(SINGLE_FUEL - 2):
+                if passed(c):
+                    ended = True
+                    break
+                c = round24(c + st, ties)
+            if not ended:
+                return None
+        return 'the loop did not end although the accumulated counter passes the end'
+    vals = out[2:] if out[0] == 1 else out[1:]
+    seq = []          # ('v', bytes) | ('ovf',)
+    i = 0
+    while i < len(vals):
+        if vals[i] == 77777:
+            seq.append(('ovf',))
+            i += 1
+        else:
+            seq.append(('v', unwords(vals[i], vals[i + 1])))
+            i += 2
+    cur = a
+    first = True
+    n = len(seq)
+    k = 0
+    pending_ovf = False
+    while k < n:
+        ev = seq[k]
+        if ev[0] == 'ovf':
+            pending_ovf = True
+            k += 1
+            continue
+        c = mbf_value(ev[1])
+        last = (k == n - 1) and out[0] == 0
+        if first and not passed(a):
+            if ev[1] != case['a'] and c != a:
+                return 'the first pass does not run with the start value'
+            first = False
+        else:
+            first = False
+            want = cur + st
+            if pending_ovf:
+                if ev[1] not in (SINGLE_MAX, SINGLE_MIN):
+                    return 'after Overflow the counter is not machine infinity'
+            else:
+                tol = abs(want) * Fraction(1, 2 ** 23)
+                if abs(c - want) > tol:
+                    return 'counter %s is not the previous value %s plus the step, rounded' % (float(c), float(cur))
+        pending_ovf = False
+        if last:
+            if not passed(c):
+                return 'the loop ended although the counter %s has not passed the end' % float(c)
+        else:
+            if passed(c):
+                return 'the body ran with counter %s, which has passed the end' % float(c)
+        cur = c
+        k += 1
+    if out[0] == 1 and out[1] != 6:
+        return 'unexpected error %d' % out[1]
+    if out[0] == 1 and not case.get('susp'):
+        return 'an error stopped the program without ON ERROR'
+    return None
+
+
+# ---------------------------------------------------------------------------------------------------------
 # common part of the C19 / C21 plugins
 
 class FlowCheck(core.Check):
@@ -918,6 +1144,8 @@ class FlowCheck(core.Check):
     WITH_TRAP_REF = False     # C21: also evaluate the mode-structured reference semantics (FlowTrap.ref_run)
 
     def impl(self, case):
+        if case['k'] == 'single':
+            return self._run(case)
         out = self._run(case)
         if case['k'] == 'struct' or self.WITH_TRAP_REF:
             # the model term evaluates both the machine and a reference semantics
@@ -926,6 +1154,11 @@ class FlowCheck(core.Check):
 
     def _run(self, case):
         cache = self.__dict__.setdefault('_runs', {})
+        if case['k'] == 'single':
+            key = core.sha(case)
+            if key not in cache:
+                cache[key] = run_single(case)
+            return cache[key]
         key = core.sha([case['prog'], case.get('direct')])
         if key not in cache:
             # statement budget: FUEL for programs the reference runs for ever, else well above what the
@@ -935,6 +1168,8 @@ class FlowCheck(core.Check):
         return cache[key]
 
     def model_term(self, case):
+        if case['k'] == 'single':
+            return single_model_term(case)
         if case['k'] == 'struct':
             sp = sprog_coq(case['sp'])
             return ('(let p := %s in enc_run (run_program (compile_prog p) harness_fuel) ++ '
@@ -953,6 +1188,8 @@ class FlowCheck(core.Check):
         return ref_flat(case['prog'], case.get('direct'))[1]
 
     def oracle(self, case, out):
+        if case['k'] == 'single':
+            return single_oracle(case, self._run(case))
         got = self._run(case)
         want = self.expected(case)
         if want == [2, 99]:
@@ -967,15 +1204,26 @@ class FlowCheck(core.Check):
         return len(out) > 1
 
     def describe(self, case):
+        if case['k'] == 'single':
+            d = dict(case)
+            d['text'] = single_text(case)
+            d['values'] = [float(mbf_value(case[x])) for x in ('a', 'b', 's')]
+            d['command'] = 'RUN'
+            return d
         d = dict(case)
         d['text'] = program_text(case['prog'])
         d['command'] = 'RUN' if case.get('direct') is None else join(case['direct'])
         return d
 
     def undescribe(self, d):
-        return {k: v for k, v in d.items() if k not in ('text', 'command')}
+        return {k: v for k, v in d.items() if k not in ('text', 'command', 'values')}
 
     def shrink_candidates(self, case):
+        if case['k'] == 'single':
+            return
+        yield from self._shrink_programs(case)
+
+    def _shrink_programs(self, case):
         """smaller programs: drop a line, drop a statement (structured cases: drop a statement of any block
         or replace a loop / IF by its body), keeping the text enterable"""
         if case['k'] == 'struct':
@@ -1004,6 +1252,9 @@ class FlowCheck(core.Check):
     def count(self, cases):
         hist = {}
         for c in cases:
+            if c['k'] == 'single':
+                hist['kind:single'] = hist.get('kind:single', 0) + 1
+                continue
             hist['kind:' + c['k'] + (':direct' if c.get('direct') is not None else '')] = \
                 hist.get('kind:' + c['k'] + (':direct' if c.get('direct') is not None else ''), 0) + 1
             for s in list(c['prog']) + list(c.get('direct') or []):
